@@ -46,6 +46,7 @@ type faultIn struct {
 	Down      bool   `json:"down,omitempty"`       // midopen/outopen: open a downstream
 	Refuse    int    `json:"refuse,omitempty"`     // pos=refuse: ordinal of the stream whose resume is refused
 	Conflicts int    `json:"conflicts,omitempty"`  // pos=conflict: the broker answers the first n resume requests of every stream on the new incarnation with RESUME_REQUEST_CONFLICT and accepts the next
+	RedialMs int `json:"redial_ms,omitempty"` // every dial attempt of the redial takes that long (an outage longer than a stream's expiry interval)
 	Late      bool   `json:"late,omitempty"`       // out*: the request is issued 25 ms after the loss, while reconnect() is already redialling (slow redial)
 	OpenAfter bool   `json:"open_after,omitempty"` // after the recovery a downstream and an upstream are opened on the healthy connection
 }
@@ -53,6 +54,9 @@ type faultIn struct {
 type caseIn struct {
 	Ups   int `json:"ups"`
 	Downs int `json:"downs"`
+	// ShortExpiry: ordinals of the initial streams opened with a 300 ms expiry interval (the others keep the
+	// default: 10 s upstream / 1 min downstream); with RedialMs the outage lasts 2-2.5 x that
+	ShortExpiry []int `json:"short_expiry,omitempty"`
 	// SlowHooks: every stream's resumed handler blocks (a slow application hook) until the NEXT failure has been
 	// survived or refused: the stream's dispatcher is inside it while the next resumed / closed event is queued
 	SlowHooks bool `json:"slow_hooks,omitempty"`
@@ -117,6 +121,7 @@ type runner struct {
 	excused      map[int]bool // resume refused by the broker, or resume exchange cut
 	accounted    int          // wire incarnations established inside the fault windows
 	backlog      int
+	shortExpiry  map[int]bool
 	downConflict bool // a downstream was closed after a RESUME_REQUEST_CONFLICT answer
 	slowHooks    bool
 	gates        []chan struct{} // gate k holds the resumed handlers that were called during fault k
@@ -151,12 +156,20 @@ func (r *runner) releaseGate(k int) {
 	r.mu.Unlock()
 }
 
+// expiryOf: the streams listed in ShortExpiry (initial streams: label = ordinal) expire after 300 ms
+func (r *runner) expiryOf(label int, def time.Duration) time.Duration {
+	if r.shortExpiry[label] {
+		return 300 * time.Millisecond
+	}
+	return def
+}
+
 func (r *runner) newLabel() int { r.label++; return r.label - 1 }
 
 func (r *runner) open(ctx context.Context, label int, down bool) error {
 	if !down {
 		up, err := r.conn.OpenUpstream(ctx, fmt.Sprintf("s%d", label), iscp.WithUpstreamFlushPolicyNone(),
-			iscp.WithUpstreamCloseTimeout(300*time.Millisecond),
+			iscp.WithUpstreamCloseTimeout(300*time.Millisecond), iscp.WithUpstreamExpiryInterval(r.expiryOf(label, 10*time.Second)),
 			iscp.WithUpstreamResumedEventHandler(iscp.UpstreamResumedEventHandlerFunc(func(ev *iscp.UpstreamResumedEvent) {
 				r.mu.Lock()
 				r.resumed = append(r.resumed, label)
@@ -190,7 +203,7 @@ func (r *runner) open(ctx context.Context, label int, down bool) error {
 		return nil
 	}
 	dn, err := r.conn.OpenDownstream(ctx, []*message.DownstreamFilter{message.NewDownstreamFilterAllFor(fmt.Sprintf("n%d", label))},
-		iscp.WithDownstreamAckFlushInterval(5*time.Millisecond),
+		iscp.WithDownstreamAckFlushInterval(5*time.Millisecond), iscp.WithDownstreamExpiryInterval(r.expiryOf(label, time.Minute)),
 		iscp.WithDownstreamResumedEventHandler(iscp.DownstreamResumedEventHandlerFunc(func(ev *iscp.DownstreamResumedEvent) {
 			r.mu.Lock()
 			r.resumed = append(r.resumed, label)
@@ -289,6 +302,9 @@ func (r *runner) fault(f faultIn) {
 		cb.DialDelay.Store(int64(50 * time.Millisecond))
 	} else {
 		cb.DialDelay.Store(0)
+	}
+	if f.RedialMs > 0 {
+		cb.DialDelay.Store(int64(time.Duration(f.RedialMs) * time.Millisecond)) // every dial attempt takes that long
 	}
 	hs := f.HsFail
 	if f.Pos == "handshake" && hs == 0 {
@@ -1230,6 +1246,15 @@ func main() {
 					jobs = append(jobs, job{c, "slow-hooks-" + second})
 				}
 			}
+		}
+		// outages longer than a stream's expiry interval (300 ms streams, redial of 650-750 ms), next to long-expiry
+		// siblings: the library cannot know the broker expired a stream - it resumes (the scripted broker accepts)
+		for _, sh := range []struct {
+			ups, downs int
+			short      []int
+		}{{1, 0, []int{0}}, {0, 1, []int{0}}, {1, 1, []int{0, 1}}, {2, 1, []int{0, 2}}, {1, 2, []int{1}}} {
+			jobs = append(jobs, job{&caseIn{Ups: sh.ups, Downs: sh.downs, ShortExpiry: sh.short, Faults: []faultIn{{Pos: "idle", RedialMs: 650}}}, "outage-longer-than-expiry"})
+			jobs = append(jobs, job{&caseIn{Ups: sh.ups, Downs: sh.downs, ShortExpiry: sh.short, Faults: []faultIn{{Pos: "handshake", RedialMs: 250, HsFail: 2, Silent: sh.ups == 2}}}, "outage-longer-than-expiry"})
 		}
 		// backlog at the outage: full read queues (1100 / 2200 unread chunks per downstream), ack burst on the upstreams
 		for _, bl := range []int{1100, 2200} {
